@@ -18,7 +18,7 @@ import (
 func init() {
 	Register(&Spec{
 		ID:           "C01",
-		Explanation:  "Decides a discipline-based necessary condition of memory safety of the read path, exhaustively over sites: (R1) Segment.data is indexed or sliced only inside the small kernel (slice, alloc, the two list-copy sites) and replaced only by alloc/setSegment; (R2) calls of the ...Unchecked arithmetic helpers occur only at the listed justified sites; (R3) the ok/err companion of every checked helper (addSize, element, times, resolve, totalListSize, dataAddress, primitiveElem, regionInBounds, lookupSegment, Message.Segment, canRead ...) reaches a branch that dominates every use of the paired value, blank-ignored only at listed sites; (R4) every call of a raw segment accessor (slice, read/writeUintN, read/writeRawPointer) has an address whose provenance is one of the enumerated justified forms (dominating regionInBounds on the same segment with constant offset+width inside the region, dataAddress/primitiveElem with the companion tested and the width within the requested size, pointerAddress under i < PointerCount, bit offset under bitInData, an object's own off/size pair, a fresh allocation, or a pointer-slot parameter whose callers are then obliged); (R5) Struct/List/Ptr values with a segment are constructed only in the listed functions, and the three readers construct them under a dominating regionInBounds on the constructed offset; (R6) the arithmetic and bounds kernel has the normal form recorded when the lemma was confirmed; (R7) the explicit panics reachable from the read API are the enumerated programmer-error ones. Does NOT decide numeric correctness of extents beyond these guards, panics inside the standard library, memory growth or blocking readers.",
+		Explanation:  "Decides a discipline-based necessary condition of memory safety of the read path, exhaustively over sites: (R1) Segment.data is indexed or sliced only inside the small kernel (slice, alloc, the two list-copy sites) and replaced only by alloc/setSegment; (R2) calls of the ...Unchecked arithmetic helpers occur only at the listed justified sites; (R3) the ok/err companion of every checked helper (addSize, element, times, resolve, totalListSize, dataAddress, primitiveElem, regionInBounds, lookupSegment, Message.Segment, canRead ...) reaches a branch that dominates every use of the paired value, blank-ignored only at listed sites; (R4) every call of a raw segment accessor (slice, read/writeUintN, read/writeRawPointer) has an address whose provenance is one of the enumerated justified forms (dominating regionInBounds on the same segment with constant offset+width inside the region, dataAddress/primitiveElem with the companion tested and the width within the requested size, pointerAddress under i < PointerCount, bit offset under bitInData, an object's own off/size pair, a fresh allocation, or a pointer-slot parameter whose callers are then obliged); (R5) Struct/List/Ptr values with a segment are constructed only in the listed functions, and the three readers construct them under a dominating regionInBounds on the constructed offset; (R6) the arithmetic and bounds kernel has the normal form recorded when the lemma was confirmed; (R7) the explicit panics reachable from the read API are the enumerated programmer-error ones. (R5u) the element address of a list read with another element size: every feasible success path of primitiveElem for a composite list carries both size comparisons (shared with C03-R3). Does NOT decide numeric correctness of extents beyond these guards, panics inside the standard library, memory growth or blocking readers.",
 		ExtraConfigs: true,
 		Run:          runC01,
 	})
@@ -30,6 +30,9 @@ func runC01(ctx *Ctx) {
 	ruleCheckedResults(ctx, "C01-R3")
 	ruleGuardedAccess(ctx, "C01-R4")
 	ruleConstructionSites(ctx, "C01-R5")
+	// the element address of a list read with another element size stays inside
+	// the element: shared with C03-R3 (same obligations under this property's id)
+	ruleUpgradeAddress(ctx, "C01-R5u")
 	if ctx.Primary {
 		ruleKernelLemmas(ctx, "C01-R6", kernelLemmaFuncs)
 	}
